@@ -183,6 +183,29 @@ def props_check(pid, extra_files=()):
     return res
 
 
+def coqchk(pid, timeout=3300):
+    """Thorough tier: re-check the compiled closure of Props/<pid>.vo with the independent checker and report the axioms it finds.
+    Cached by the hash of every .v file of the development. Returns (ok, summary)."""
+    h = hashlib.sha1()
+    for root, _, files in sorted(os.walk(COQ)):
+        for f in sorted(files):
+            if f.endswith(".v"):
+                h.update(open(os.path.join(root, f), "rb").read())
+    cache = os.path.join(BUILD, "coqchk_%s_%s.txt" % (pid, h.hexdigest()[:12]))
+    if os.path.exists(cache):
+        out = open(cache).read()
+    else:
+        rc, out = run(["coqchk", "-silent", "-o", "-Q", ".", "GMK", "GMK.Props.%s" % pid], cwd=COQ, timeout=timeout)
+        out = "rc=%d\n%s" % (rc, out)
+        if rc in (0, 1):
+            open(cache, "w").write(out)
+    m = re.search(r"CONTEXT SUMMARY(.*)", out, re.S)
+    summ = re.sub(r"\s+", " ", m.group(1)).strip() if m else out[-400:]
+    ok = out.startswith("rc=0") and "* Axioms: <none>" in out and "type-in-type: <none>" in out \
+        and "unsafe (co)fixpoints: <none>" in out and "positivity is assumed: <none>" in out
+    return ok, summ
+
+
 def coq_eval_cases(path, timeout=900):
     """Evaluate a generated cases file; returns (ok, mismatching indices, log)."""
     d = os.path.dirname(path)
